@@ -216,6 +216,71 @@ def run_files(ctx, n):
         os.remove(p)
 
 
+def run_overlap(ctx, n):
+    """several hashing streams alive at once (alternating reads, a finished stream inspected after another was
+    opened, threads): each digest is that of its own content"""
+    import threading
+
+    from dvc_data.hashfile.hash import get_hash_stream
+
+    rng = ctx.rng
+    for _ in range(n):
+        k = rng.randrange(2, 5)
+        names = [rng.choice(["md5", "sha256", "blake3", "BLAKE3", "blake3", "md5-dos2unix"]) for _ in range(k)]
+        if rng.random() < 0.5:
+            names = [names[0]] * k
+        datas = [gen_content(rng)[0] or b"x" for _ in range(k)]
+        mode = rng.choice(["alternate", "inspect_late", "threads"])
+        case = {"overlap": mode, "names": names, "contents": [d[:24].hex() for d in datas], "lens": [len(d) for d in datas]}
+        ctx.case(case)
+        ctx.count("overlap:" + mode)
+        ctx.count("overlap_same_algorithm=%s" % (len(set(n.lower() for n in names)) == 1))
+
+        def expected(name, data):
+            if name.lower() == "md5-dos2unix":
+                return hashlib.md5(data.replace(b"\r\n", b"\n") if _is_text_ref(data[:512]) else data).hexdigest()
+            return ref_digest(name, data)
+
+        def f():
+            if mode == "threads":
+                out = [None] * k
+
+                def work(i):
+                    st = get_hash_stream(io.BytesIO(datas[i]), names[i])
+                    while st.read(2**20):
+                        pass
+                    out[i] = (st.hash_value, st.total_read)
+
+                ts = [threading.Thread(target=work, args=(i,)) for i in range(k)]
+                for t in ts:
+                    t.start()
+                for t in ts:
+                    t.join()
+                return out
+            sts = []
+            res = [None] * k
+            if mode == "inspect_late":
+                for i in range(k):
+                    st = get_hash_stream(io.BytesIO(datas[i]), names[i])
+                    while st.read(2**20):
+                        pass
+                    sts.append(st)
+                return [(st.hash_value, st.total_read) for st in sts]
+            sts = [get_hash_stream(io.BytesIO(datas[i]), names[i]) for i in range(k)]
+            live = list(range(k))
+            while live:
+                i = rng.choice(live)
+                if not sts[i].read(2**20):
+                    live.remove(i)
+            return [(st.hash_value, st.total_read) for st in sts]
+
+        kind, v = safe_call(f)
+        # every content fits one read, so the legacy stream's digest is the single-read one
+        exp = [(expected(names[i], datas[i]), len(datas[i])) for i in range(k)]
+        ctx.oracle(kind == "ok" and [tuple(x) for x in v] == exp, case,
+                   {"why": "streams alive at the same time do not each report the digest / count of their own content", "impl": v, "expected": exp})
+
+
 def run_exhaustive(ctx):
     from dvc_data.hashfile.istextfile import TEXT_CHARS, istextblock
 
@@ -269,7 +334,7 @@ def run_dos2unix(ctx, n):
 def run(ctx):
     ctx.rule = (
         "contents from 8 families (text, CRLF, CR runs, binary, NUL, 30%-threshold mixes, CRLF straddling 511/512, empty) x "
-        "9 algorithm names x random read schedules through a short-read file object; whole-file APIs on real files up to >1 MiB; "
+        "9 algorithm names x random read schedules through a short-read file object; whole-file APIs on real files up to >1 MiB; 2-4 streams alive at once (alternating reads, inspected after the others were opened, threads); "
         "non-trivial = at least one non-empty chunk; distinct = sha256 of (name, readsize, chunks)"
     )
     ctx.assumptions = ["hashlib/blake3 hashers are functions of the concatenation of their updates (H is a parameter of every theorem)"]
@@ -277,11 +342,13 @@ def run(ctx):
     run_dos2unix(ctx, ctx.n(300, 3000))
     run_streams(ctx, ctx.n(1200, 15000))
     run_files(ctx, ctx.n(150, 1500))
+    run_overlap(ctx, ctx.n(150, 1500))
 
 
 def search(ctx):
     run_streams(ctx, 20000)
     run_files(ctx, 1500)
+    run_overlap(ctx, 1500)
 
 
 def replay(ctx, payload):
